@@ -1,2 +1,1 @@
-import Norad.Props.C11
 import Norad.Props.C20
